@@ -32,7 +32,7 @@ class Poly:
         d = dict(a)
         for v, e in b:
             d[v] = d.get(v, 0) + e
-        return tuple(sorted(d.items()))
+        return tuple(sorted((v, e) for v, e in d.items() if e))
 
     def _coerce(o):
         if isinstance(o, Poly):
